@@ -204,12 +204,17 @@ def replay_history(arg):
     return {'records': recs, 'pristine': p0}
 
 
+# interpreters the isolated references are computed in: (PYTHONHASHSEED, starting directory). Six seeds: an order dependence with two outcomes
+# escapes five alternative seeds with probability 1/32
+REF_ENVS = (('0', 'A'), ('1', 'B'), ('12345', 'A'), ('2', 'B'), ('3', 'A'), ('4', 'B'))
+
+
 def compute_references(kinds):
-    """each request alone, in pristine interpreters with three hash seeds and two starting directories."""
+    """each request alone, in pristine interpreters with six hash seeds and two starting directories."""
     refs = {}
     script = os.path.join(os.path.dirname(os.path.abspath(__file__)), 'c08_ref.py')
     outs = []
-    for seed_, start in (('0', 'A'), ('1', 'B'), ('12345', 'A')):
+    for seed_, start in REF_ENVS:
         env = dict(os.environ, PYTHONHASHSEED=seed_, VF_REF_START=start, VF_REF_KINDS=json.dumps(kinds))
         p = subprocess.run(['/venv/bin/python', '-m', 'vf.checks.c08_ref'], capture_output=True, text=True, env=env, cwd=check.VERIF, timeout=1800)
         if p.returncode != 0:
@@ -264,12 +269,12 @@ def task(payload):
             what = {'json': 'json_file', 'text': 'result', 'outcome': 'outcome'}[dd['part']]
             check.fail(res, f'depends_on_hash_seed_or_directory/{what}/{dd["kind"]}', f'request {dd["kind"]} alone in a pristine interpreter: {what} under {dd["env"]} differs from '
                        f'PYTHONHASHSEED=0, directory A: {dd["diff"][0]!r} vs {dd["diff"][1]!r}')
-        res['execs'] += 3 * payload['n_kinds']
+        res['execs'] += len(REF_ENVS) * payload['n_kinds']
         res['accepted'] += 1
         d = check.digest(['refs', payload['n_kinds']])
         res['states'].append(d)
         res['nontrivial'].append(d)
-        res['sample'] = {'isolated_runs_across_interpreters': {'requests': payload['n_kinds'], 'hash_seeds': [0, 1, 12345], 'directories': ['A', 'B']}}
+        res['sample'] = {'isolated_runs_across_interpreters': {'requests': payload['n_kinds'], 'hash_seeds': [int(a) for a, _ in REF_ENVS], 'directories': ['A', 'B']}}
         return res
     refs = payload['refs']
     for h in payload['histories']:
@@ -297,7 +302,7 @@ def plan(tier, seed):
     # (iii) references agree across hash seeds and starting directories
     plan.ref_disagreements = []
     ref_details = []
-    ref_env = [('PYTHONHASHSEED=0, directory A'), ('PYTHONHASHSEED=1, directory B'), ('PYTHONHASHSEED=12345, directory A')]
+    ref_env = [f'PYTHONHASHSEED={a}, directory {b}' for a, b in REF_ENVS]
     for k in kinds:
         for oi, o in enumerate(outs[1:], 1):
             if o[k] != outs[0][k]:
@@ -315,7 +320,7 @@ def plan(tier, seed):
         H = list(histx.histories(events, 3))
         have = {tuple(h) for h in H}
         H += [h for h in histx.histories(EVENTS_WIDE, 2) if tuple(h) not in have]
-    # the isolated runs themselves, compared across interpreters: result, and the JSON file next to the report, under three hash seeds / two directories
+    # the isolated runs themselves, compared across interpreters: result, and the JSON file next to the report, under six hash seeds / two directories
     P = [{'kind': 'refs', 'disagreements': ref_details, 'n_kinds': len(kinds)}]
     B = 6
     slim = [{k: {'outcome': v['outcome'], 'text': v.get('text')} for k, v in outs[0].items()}]
@@ -398,7 +403,7 @@ def run(tier, seed, budget=None):
               'request, a two-segment request capped in its last segment and a closed-loop (SBT) request; HIP-RA-X; 4 failing requests that fail while reading / calculating / printing / through a bare sys.exit(); rewrite-the-file-with-other-content '
               '(succeeding or aborting; modification time newer, unchanged or older; a new request object or the one used before; also a rewrite that keeps size and modification time)-and-ask-again; the last plain file asked for again unchanged through the non-caching client; the base-file-plus-override-dictionary request of the client on a base that is rewritten with lines dropped; a non-caching client) plus ALL histories of length 3 over 9 events; thorough = all histories of length <= 3 '
               'over 30 events + pruned depth 4; starting directory alternates. References: each request alone '
-              'in pristine interpreters under PYTHONHASHSEED 0/1/12345 and two directories. States = digest of the process-state vector after the history'),
+              'in pristine interpreters under PYTHONHASHSEED 0/1/2/3/4/12345 and two directories (result and JSON file judged). States = digest of the process-state vector after the history'),
         assumptions=['functools memo tables are pure caches and excluded from the state comparison (reported in evidence)',
                      'result equality is on the complete parsed content of the returned result object (all categories and profile tables; metadata with paths/clock excluded) and on the full report text for HIP-RA-X'],
         extra={'reference_disagreements_across_hash_seeds_or_dirs': getattr(plan, 'ref_disagreements', None)})
